@@ -7,6 +7,11 @@ in-process under ASan+UBSan with an allocation cap and an alarm, and through the
 import os, random, shutil, subprocess, tempfile, concurrent.futures as cf
 import vlib, cdnsgen as G, cborgen, refexp, expcheck as E
 
+# the largest single allocation request while one input is read: at most the decoder window / stream buffers (slack) plus a
+# multiple of the input length (containers of decoded items grow by doubling; one decoded item is a few hundred bytes)
+ALLOC_SLACK = 1 << 20
+ALLOC_FACTOR = 256
+
 BIG = [2**64 - 1, 2**63, 2**63 - 1, 2**32, 2**32 - 1, 2**31, 65536, 65535, 256, 255, 24, 23, 1, 0]
 
 
@@ -21,7 +26,7 @@ def mutate_tree(rng, n):
     x = rng.choice(nodes)
     k = rng.randrange(8)
     if k == 0 and x.major in (0, 1):
-        x.arg = rng.choice(BIG)
+        x.arg = rng.choice(BIG) if rng.random() < 0.6 else rng.randrange(0, 300)      # boundary integers and small out-of-range codes
     elif k == 1 and x.major in (0, 1):
         x.major = 1 - x.major
     elif k == 2 and x.major in (2, 3) and not x.indef:
@@ -43,6 +48,9 @@ def mutate_tree(rng, n):
     return True
 
 
+LIES = BIG[:8] + [2**62, 2**40, 2**30, 2**27, 2**24, 2**22]
+
+
 def lie_about_length(rng, data):
     """overwrite one head so that it announces a huge length/count/value"""
     b = bytearray(data)
@@ -50,9 +58,25 @@ def lie_about_length(rng, data):
         i = rng.randrange(len(b))
         m, ai = b[i] >> 5, b[i] & 31
         if m in (2, 3, 4, 5) and ai <= 27:
-            v = rng.choice(BIG[:8])
+            v = rng.choice(LIES)
             return bytes(b[:i]) + cborgen.head(m, v, "w8") + bytes(b[i + 1 + {24: 1, 25: 2, 26: 4, 27: 8}.get(ai, 0):])
     return bytes(b)
+
+
+def field_boundaries(data, values, majors=(0, 1)):
+    """every numeric field of a valid file set to each boundary value (one field at a time)"""
+    tree = cborgen.parse(data)[0]
+    ints = []
+    def walk(x):
+        if x.major in (0, 1):
+            ints.append(x)
+        for c in x.children:
+            walk(c)
+    walk(tree)
+    for n in ints:
+        for v in values:
+            for mj in majors:
+                yield data[:n.start] + cborgen.head(mj, v) + data[n.end:]
 
 
 def byte_mutate(rng, data):
@@ -73,6 +97,45 @@ def byte_mutate(rng, data):
     return bytes(b)
 
 
+VALID_HEAD = bytes.fromhex("8365432d444e53a30001010003") + bytes.fromhex("81a100a5001903e8010a02a4001a0003ffff011a0001ffff0203030303800480") + b"\x9f"
+
+
+def table_floods(rng, n):
+    """(name, crafted file, control file): one block whose table holds n distinct entries that are as alike as entries can be
+    (equal length and a long common prefix / suffix, or one varying member), and a control of the same size and shape with
+    unrelated entries.  Reading either must cost about the same: the reader indexes every table entry it decodes."""
+    def one_block(table_key, entries):
+        return (VALID_HEAD + b"\xa2\x00\xa1\x00\x82\x00\x00\x02\xa1" + bytes([table_key]) + cborgen.head(4, len(entries)) + b"".join(entries) + b"\xff")
+    def bstr(b):
+        return cborgen.head(2, len(b)) + b
+    L = 72
+    ctr = [i.to_bytes(4, "big") for i in range(n)]
+    rnd = set()
+    while len(rnd) < n:
+        rnd.add(bytes(rng.randrange(256) for _ in range(L)))
+    control_s = [bstr(x) for x in sorted(rnd)]
+    shapes = {"common 40-byte prefix": [b"a" * 40 + c + b"z" * (L - 44) for c in ctr],
+              "common 64-byte prefix": [b"a" * 64 + c + b"z" * (L - 68) for c in ctr],
+              "common 68-byte suffix": [c + b"z" * (L - 4) for c in ctr],
+              "differ in bytes 30..33": [b"a" * 30 + c + b"z" * (L - 34) for c in ctr]}
+    out = []
+    for tk, tn in ((0, "ip_address"), (2, "name_rdata")):
+        for name, es in shapes.items():
+            out.append(("%s table, %d entries: %s" % (tn, n, name), one_block(tk, [bstr(e) for e in es]), one_block(tk, control_s)))
+    def m(*kv):
+        return cborgen.head(5, len(kv) // 2) + b"".join(cborgen.head(0, x) for x in kv)
+    pairs = set()
+    while len(pairs) < n:
+        pairs.add((rng.randrange(65536), rng.randrange(65536)))
+    control_ct = [m(0, a, 1, b) for a, b in sorted(pairs)]
+    out.append(("classtype table, %d entries: class fixed, type counts up" % n, one_block(1, [m(0, i, 1, 1) for i in range(n)]), one_block(1, control_ct)))
+    out.append(("classtype table, %d entries: type fixed, class counts up" % n, one_block(1, [m(0, 1, 1, i) for i in range(n)]), one_block(1, control_ct)))
+    control_rr = [m(0, a, 1, b, 2, rng.randrange(2**31)) for a, b in sorted(pairs)]
+    out.append(("rr table, %d entries: only the ttl varies" % n, one_block(7, [m(0, 0, 1, 0, 2, i) for i in range(n)]), one_block(7, control_rr)))
+    out.append(("question table, %d entries: only the name index varies" % n, one_block(5, [m(0, i, 1, 0) for i in range(n)]), one_block(5, [m(0, a, 1, b) for a, b in sorted(pairs)])))
+    return out
+
+
 def bombs(quick=False):
     out = []
     for n in ((1000, 150000) if quick else (1000, 100000, 400000)):
@@ -89,9 +152,18 @@ def bombs(quick=False):
                            (b"\xc1\x81", b"\x00"), (b"\xd8\x20\x9f", b"")):
         out.append(hdr + b"\xa1\x18\x63" + opener * deep + closer)          # skipped as the value of an unknown preamble key
     # ... and as an unknown member of a block of an otherwise valid file
-    valid_head = bytes.fromhex("8365432d444e53a30001010003") + bytes.fromhex("81a100a5001903e8010a02a4001a0003ffff011a0001ffff0203030303800480") + b"\x9f"
+    valid_head = VALID_HEAD
     out.append(valid_head + b"\xa2\x00\xa1\x00\x82\x00\x00\x18\x64" + b"\xc1" * deep + b"\x00" + b"\xff")
     out.append(bytes.fromhex("5b0000010000000000")); out.append(hdr + bytes.fromhex("a1187b5b0000010000000000"))
+    # chunked strings whose chunk head announces far more than the input holds: read directly, as the file type id, as a
+    # preamble member that is skipped, and as a table string of a block
+    for lie in ("5a01000000", "5a40000000", "5b0000010000000000", "5b4000000000000000", "5bffffffffffffffff"):
+        for major in (0x40, 0x60):
+            chunked = bytes([major | 0x1f]) + bytes([major | 1, 0x61]) + bytes([major | int(lie[:2], 16) & 0x1f]) + bytes.fromhex(lie[2:]) + b"ab"
+            out.append(chunked)
+            out.append(b"\x83" + chunked)
+            out.append(hdr + b"\xa1\x18\x63" + chunked)
+            out.append(valid_head + b"\xa2\x00\xa1\x00\x82\x00\x00\x02\xa1\x00\x81" + chunked)
     return out
 
 
@@ -148,7 +220,7 @@ def check(run):
         for data, err in r["plain"]:
             if data:
                 valid.append(data)
-    n_mut = 8000 if quick else 250000
+    n_mut = 10000 if quick else 250000
     for v in valid[:300]:
         inputs.append(("valid", v))
     trees = []
@@ -157,6 +229,14 @@ def check(run):
             trees.append((v, cborgen.parse(v)[0]))
         except Exception:
             pass
+    # boundary integers in every numeric field of a few small valid files (with records)
+    small = sorted(set(v for v in valid if 120 <= len(v)), key=len)
+    fb_tools = []
+    for fi, v in enumerate(small[:3] if quick else small[:40]):
+        for d in field_boundaries(v, (0, 1, 2**31, 2**32 - 1, 2**63 - 1, 2**63, 2**64 - 1)):
+            inputs.append(("field-boundary", d))
+    for v in (small[:1] + small[len(small) // 2:len(small) // 2 + 1] if quick else small[:12]):
+        fb_tools += list(field_boundaries(v, (0, 2**63, 2**64 - 1), majors=(0,)))
     import copy
     while len(inputs) < n_mut:
         k = rng.random()
@@ -169,8 +249,13 @@ def check(run):
                 inputs.append(("tree", cborgen.encode(t2, rng, rng.choice([0, 0.1]))))
             except Exception:
                 inputs.append(("byte", byte_mutate(rng, v)))
-        elif k < 0.55:
+        elif k < 0.5:
             inputs.append(("length-lie", lie_about_length(rng, v)))
+        elif k < 0.55:
+            try:
+                inputs.append(("length-lie-chunked", lie_about_length(rng, cborgen.encode(t, rng, 0.5))))
+            except Exception:
+                inputs.append(("length-lie", lie_about_length(rng, v)))
         elif k < 0.7:
             inputs.append(("truncate", v[:rng.randrange(len(v) + 1)]))
         elif k < 0.93:
@@ -182,12 +267,22 @@ def check(run):
     exe = vlib.build_harness("asan")
     lines = ["fz " + (d.hex() or "-") for _, d in inputs]
     ans = vlib.run_lines([exe, "fz"], lines, timeout=1800, min_chunk=256)
+    worst_alloc = 0
     for (kind, d), a in zip(inputs, ans):
         run.count("input:" + kind)
         ok = a is not None and a.startswith("I ")
         run.case((len(d), d[:24].hex(), hash(d)), kind != "random")
         if ok:
+            a, _, alloc = a.partition(" A")
+            largest = int((alloc or "0").split(" ")[0])
             run.count("result:" + a[2:].split(":")[0] + (":" + a[2:].split(":")[1] if a.startswith("I exc") else ""))
+            worst_alloc = max(worst_alloc, (largest - ALLOC_SLACK) / max(1, len(d)))
+            if largest > ALLOC_SLACK + ALLOC_FACTOR * len(d):
+                sig = "read:allocation-not-proportional"
+                if sig not in seen:
+                    seen.add(sig)
+                    run.spec_fail.append((sig, "fz " + d.hex()[:20000], {"input kind": kind, "bytes": len(d), "largest single allocation request": largest,
+                                          "bound": "%d + %d x input length" % (ALLOC_SLACK, ALLOC_FACTOR)}))
             continue
         summary = (a or "no answer")
         cls = "asan" if "AddressSanitizer" in summary else ("ubsan" if "runtime error" in summary else ("timeout" if "TIMEOUT" in summary or "alarm" in summary.lower() else "signal"))
@@ -198,11 +293,39 @@ def check(run):
         if sig not in seen:
             seen.add(sig)
             run.spec_fail.append((sig, "fz " + d.hex()[:20000], {"input kind": kind, "bytes": len(d), "implementation": summary[:400]}))
+    run.extra["largest allocation request minus slack, per input byte (worst)"] = round(worst_alloc, 2)
+    # time proportional to the input: tables of look-alike entries against controls of the same size and shape
+    floods = table_floods(rng, 6000 if quick else 20000)
+    fl_lines = []
+    for name, crafted, control in floods:
+        fl_lines += ["fz " + control.hex(), "fz " + crafted.hex(), "fz " + control.hex(), "fz " + crafted.hex()]
+    fl_ans = vlib.run_lines([exe, "fz"], fl_lines, timeout=1800, min_chunk=4)
+    worst_ratio = 0
+    for fi, (name, crafted, control) in enumerate(floods):
+        a = fl_ans[4 * fi:4 * fi + 4]
+        run.case(("flood", name), True); run.count("input:table-flood")
+        if any(x is None or not x.startswith("I ok:1:") for x in a):
+            sig = "read:table-flood:" + name.split(",")[0]
+            if sig not in seen:
+                seen.add(sig)
+                run.spec_fail.append((sig, "fz " + crafted.hex()[:20000], {"what": name, "answers": [str(x)[:200] for x in a], "expected": "I ok:1:0 for the control and the crafted file"}))
+            continue
+        us = [int(x.rsplit(" T", 1)[1]) for x in a]
+        t_control, t_crafted = max(us[0], us[2]), min(us[1], us[3])
+        worst_ratio = max(worst_ratio, t_crafted / max(1, t_control))
+        if t_crafted > 8 * t_control + 250000:
+            sig = "read:time-not-proportional:" + name.split(",")[0]
+            if sig not in seen:
+                seen.add(sig)
+                run.spec_fail.append((sig, "fz " + crafted.hex()[:20000], {"what": name, "bytes": len(crafted), "microseconds (crafted, best of 2)": t_crafted,
+                                      "microseconds (control of the same size and shape, worst of 2)": t_control, "bound": "8 x control + 0.25 s"}))
+    run.extra["table floods: worst crafted/control read-time ratio"] = round(worst_ratio, 2)
     # command-line tools on a sample
     tools = vlib.build_cli_tools()
     tmp = tempfile.mkdtemp(prefix="c03_", dir=vlib.CACHE)
     try:
-        sample = [d for k, d in inputs if k in ("corpus", "bomb")] + [d for _, d in rng.sample(inputs, 250 if quick else 20000)]
+        sample = [d for k, d in inputs if k in ("corpus", "bomb")] + fb_tools + [d for _, d in rng.sample(inputs, 250 if quick else 20000)]
+        run.count("tool inputs: boundary integer in one numeric field", len(fb_tools))
         files = []
         for i, d in enumerate(sample):
             p = os.path.join(tmp, "f%d" % i); open(p, "wb").write(d); files.append(p)
